@@ -241,9 +241,9 @@ def judge(s):
 
 # classes of printer defects, by the reason the statement is outside [printable]
 CLASS_ORDER = [
-    ("prob-dropped-on-operator-or-list-term", {"prob-on-nonplain"}),
+    ("probability-annotation-dropped-by-printer", {"prob-on-nonplain"}),
     ("not-as-argument-printed-in-functional-notation", {"not-inner"}),
-    ("token-of-backslash-eq-at-eq-has-string-backslash-plus", {"op-table"}),
+    ("token-of-backslash-eq-at-eq-has-string-backslash-plus", {"eqat-token"}),
     ("unary-operator-operand-not-parenthesised", {"unary-operand-priority", "unary-operand-paren"}),
     ("conjunction-disjunction-negation-operand-not-parenthesised",
      {"and-left-priority", "and-right-priority", "or-left-priority", "or-right-priority", "neg-operand-priority",
@@ -349,12 +349,19 @@ def stmt_variants(s):
                     yield ("ad", s[1][:i] + [v] + s[1][i + 1:], s[2])
 
 
-def shrink_stmt(s, bad, budget=250):
+def measure(s):
+    return (stmt_size(s), len(T.p_stmt(s)))
+
+
+def shrink_stmt(s, bad, budget=300):
     cur = s
     improved = True
     while improved and budget > 0:
         improved = False
+        m = measure(cur)
         for v in stmt_variants(cur):
+            if measure(v) >= m:
+                continue
             budget -= 1
             if budget <= 0:
                 break
